@@ -41,6 +41,7 @@ def gen_cases(tier, seed):
     for p in range(1, 11):
         fixed.append({"degree": p, "ncells": 1, "periodic": False, "kind": "uniform", "fast": False, "uniform_flag": True, "seed": p})
         fixed.append({"degree": p, "ncells": p + 1, "periodic": True, "kind": "random", "fast": False, "uniform_flag": False, "seed": 100 + p})
+        fixed.append({"degree": p, "ncells": p, "periodic": True, "kind": "random", "fast": False, "uniform_flag": False, "seed": 150 + p})
     for nc in (1, 2, 3, 4, 7):
         fixed.append({"degree": 3, "ncells": nc, "periodic": False, "kind": "uniform", "fast": True, "uniform_flag": True, "seed": 200 + nc})
     for nc in (4, 5, 8):
